@@ -489,6 +489,31 @@ func incrementsOf(v ssa.Value) (incs []*ssa.BinOp, other []ssa.Value) {
 			if c, ok := constInt(x); !ok || c != 0 {
 				other = append(other, v)
 			}
+		case *ssa.UnOp:
+			// a counter kept in a field of a local struct (`var counts ShardCounts; counts.X++`):
+			// its value is the zero value plus whatever is stored into that field
+			if x.Op == token.MUL {
+				if fa, ok := x.X.(*ssa.FieldAddr); ok {
+					if al, ok := fa.X.(*ssa.Alloc); ok {
+						for _, ref := range referrersOf(al) {
+							fa2, ok := ref.(*ssa.FieldAddr)
+							if !ok || fa2.Field != fa.Field {
+								if st, isSt := ref.(*ssa.Store); isSt && st.Addr == ssa.Value(al) {
+									other = append(other, st.Val) // whole-struct assignment
+								}
+								continue
+							}
+							for _, r2 := range referrersOf(fa2) {
+								if st, ok := r2.(*ssa.Store); ok && st.Addr == ssa.Value(fa2) {
+									walk(st.Val)
+								}
+							}
+						}
+						return
+					}
+				}
+			}
+			other = append(other, v)
 		default:
 			other = append(other, v)
 		}
